@@ -7,7 +7,7 @@
    implementation hands to its Signer / MACer / Encryptor are compared with the model's on every case. *)
 From Coq Require Import String.
 From Coq Require Import NArith ZArith List Bool.
-From Cose Require Import Lib.Base Lib.Cbor Model.GoVal Model.Wire Model.MsgLogic Model.Nonce Model.Msg Model.MsgProofs Spec.RFC9052.
+From Cose Require Import Lib.Base Lib.Cbor Model.GoVal Model.Wire Model.MsgLogic Model.Nonce Model.Msg Model.MsgProofs Spec.RFC9052 Gen.SlicesGen Model.SlicesProofs.
 Import ListNotations.
 
 Theorem C04_sign1_structure : forall pb ext pl sp,
@@ -131,3 +131,11 @@ Example C04_kdf_context_shape :
   enc_kdf_ctx (c None None) = Some (hex "842283f640410183f640410182188040")
   /\ enc_kdf_ctx (c (Some []) (Some [])) = Some (hex "852283f640410183f64041018318804040" ++ hex "40")%list.
 Proof. vm_compute. split; reflexivity. Qed.
+
+(* ---- the source: in each of the ten single-key methods exactly one structure is built and exactly one primitive call
+   is made (regenerated from the source on every run, Gen/SlicesGen.prim_calls): when consuming, the structure comes
+   from the builder of the DECODED wire struct (received protected bytes and payload) with the caller's external data,
+   and the primitive is handed it together with the received signature / tag / ciphertext *)
+Theorem C04_primitive_is_handed_the_structure : prim_calls = expected_prim_calls.
+Proof. exact primitives_get_the_structure. Qed.
+Print Assumptions C04_primitive_is_handed_the_structure.
